@@ -49,7 +49,7 @@ Fixpoint blit (buf src : bytes) : bytes * nat :=
   | _, _ => (buf, O)
   end.
 
-Fixpoint copy_at_opt (buf : bytes) (off : nat) (src : bytes) : option (bytes * nat) :=
+Fixpoint copy_at_opt (buf : bytes) (off : nat) (src : bytes) {struct off} : option (bytes * nat) :=
   match off with
   | O => Some (blit buf src)
   | S off' =>
